@@ -1,11 +1,12 @@
 import Jose.Driver.B64
+import Jose.Driver.IO
 /-
   Line-protocol driver: answers each `<op> <json>` line from the model.
   (`lake exe josemodel < ops`); see harness/hx.c for the real side.
 -/
 open Jose Jose.Driver
 
-def allOps : List (String × (Json → Json)) := b64Ops
+def allOps : List (String × (Json → Json)) := b64Ops ++ ioOps
 
 def handle (line : String) : String :=
   let line := line.trimAscii.toString
